@@ -255,6 +255,27 @@ def run(tier):
             if got != b["accepted"]:
                 chk.violation("accept_iff_well_formed", {"contract": "input_section", "expected_accept": b["accepted"], "faults": fs, "base": bi},
                               {"section": {k: {k2: str(v2) for k2, v2 in v.items()} for k, v in s.items()}}, f"input section with faults {fs} (base {bi}): accepted={got}")
+    # ---- history: a section refused because a file is missing must be accepted once the file exists (and conversely) --------------
+    for j, key in enumerate(["img", "mask", "classif", "segm"]):
+        late = tmp / f"late_{key}.tif"
+        src = {"img": files["img_r"], "mask": files["mask"], "classif": files["classif"], "segm": files["segm"]}[key]
+        s = copy.deepcopy(bases[1])
+        s["right"][key] = str(late)
+        outcomes = []
+        for phase in ("missing", "present", "removed"):
+            if phase == "present":
+                shutil.copy(src, late)
+            if phase == "removed":
+                late.unlink()
+            try:
+                check_input_section({"input": copy.deepcopy(s)})
+                outcomes.append(True)
+            except Exception:  # pylint: disable=broad-except
+                outcomes.append(False)
+        chk.count(("late_file", key))
+        if outcomes != [False, True, False]:
+            chk.violation("accept_iff_well_formed", {"contract": "input_section", "history": "file_appears_later", "key": key},
+                          {"outcomes_missing_present_removed": outcomes}, f"input section whose right {key} file appears later: outcomes {outcomes}")
     shutil.rmtree(tmp, ignore_errors=True)
     chk.traces = chk.evaluations
     chk.rule = ("fault subsets enumerated by TLC applied to 6 well-formed dataset-pair bases (mono/3-band, scalar/grid disparities, masks, classif, segm, "
